@@ -19,7 +19,7 @@ func init() {
 		Level: "other",
 		Explanation: "Decided (structural necessary conditions of 'no input can crash, hang or exhaust the process'; classes of failures are removed, their absence is not proven): (R2.1) a tokenizer error ends the token stream (the lookahead becomes EOF) or is checked at every call site, so no parse loop can spin on an unreadable byte; (R2.3) sizes read from the file are bounded before they reach make(): stream bodies are read in constant-bounded pieces, the object-stream table by the header size, the worksheet grid by a constant, and the page count is the number of leaves, not /Count; (R2.4) file-derived slice bounds and indices are guarded on both sides (object-stream offsets, /Index pairs, /W widths); (R2.5) every integer division in the predictor code has a divisor proven >= 1; (R2.6) every recursive call-graph cycle is either structurally guarded (depth counter compared with a bound and incremented along the cycle, a visited/on-path set tested and filled, an in-progress set) or is recursion over an already materialised tree listed in the checker; loops that follow file references carry a counter or visited test that dominates their back edge; the XObject depth counter is incremented and decremented exactly once on every path; (R2.7) every dereference of a format-specific reader in the Extractor happens where only that format is possible (finite dataflow over the format constants, with callee summaries). " +
 			"Not decided: absence of all panics/hangs/OOM (unproven bounds checks elsewhere, decompression bombs, regexp cost), timing.",
-		Rules: []func(*eng.Ctx){ruleStructuralFaultsEvaluated, ruleGridRectangular, ruleObjectStreamsEvaluated, ruleBoundsNotInNarrowArithmetic, ruleNoLockAcrossReentry, ruleDepthCountersBalanced, ruleFixedTableIndex, ruleTokenErr, ruleAllocBound, ruleIndexBound, ruleDivGuard, ruleRecGuard, ruleRefLoops, ruleDepthBalance, ruleFormatState, ruleParsedIndex, ruleWrapLoop, roleRule("R2.R", "core", "reader", "pages", "font"), ruleVisitedOnlyGrows, ruleObjStmIndexGuard, ruleWeakBound, ruleAllocFromFileInt, ruleSliceBoundOwnLength, ruleMarkUnmarkBalance, ruleParsedCountCapped, ruleParsedRepeatBounded, ruleCursorReadsGuarded, ruleCoordinateCountsCapped, ruleSizeCheckNoOverflow, ruleUnitDecoderReads, ruleIndexPairOrdered, ruleTailIndexGuarded},
+		Rules: []func(*eng.Ctx){ruleTruncatedContentEvaluated, ruleStructuralFaultsEvaluated, ruleGridRectangular, ruleObjectStreamsEvaluated, ruleBoundsNotInNarrowArithmetic, ruleNoLockAcrossReentry, ruleDepthCountersBalanced, ruleFixedTableIndex, ruleTokenErr, ruleAllocBound, ruleIndexBound, ruleDivGuard, ruleRecGuard, ruleRefLoops, ruleDepthBalance, ruleFormatState, ruleParsedIndex, ruleWrapLoop, roleRule("R2.R", "core", "reader", "pages", "font"), ruleVisitedOnlyGrows, ruleObjStmIndexGuard, ruleWeakBound, ruleAllocFromFileInt, ruleSliceBoundOwnLength, ruleMarkUnmarkBalance, ruleParsedCountCapped, ruleParsedRepeatBounded, ruleCursorReadsGuarded, ruleCoordinateCountsCapped, ruleSizeCheckNoOverflow, ruleUnitDecoderReads, ruleIndexPairOrdered, ruleTailIndexGuarded},
 	})
 }
 
